@@ -27,7 +27,10 @@ cSI == 96   cSO == 97        \* shift into / out of a multi-byte run of a statef
 cGARBAGE == 99   \* a character decoded with a codec other than the one it was encoded with
 
 DocClasses == 1..9
-DocClassesX == DocClasses \cup {cPLUS, cTILDE}
+\* format metacharacters: ordinary characters for XML, but what % templates and str.format templates are made of
+cPCT == 32   cLBRACE == 33   cRBRACE == 34
+cFMT == 35   \* a conversion letter / field index: s, d, 0  (so that  % FMT  is %s, %d  and  { FMT }  is {0})
+DocClassesX == DocClasses \cup {cPLUS, cTILDE, cPCT, cLBRACE, cRBRACE, cFMT}
 
 \* element names
 ePAGES == 20  ePAGE == 21  eTEXTBOX == 22  eTEXTLINE == 23  eTEXT == 24  eFIGURE == 25  eIMAGE == 26
